@@ -781,6 +781,13 @@ def fold_bin(op, l, r):
                     return const(a ** b)
         except TypeError:
             pass
+    # (a + c1) - c2 is a + (c1 - c2): integer constants on the right of a sum are combined
+    if op in ('+', '-') and r[0] == 'c' and isinstance(r[1], int) and not isinstance(r[1], bool) and l[0] == 'bin' and \
+            l[1] in ('+', '-') and l[3][0] == 'c' and isinstance(l[3][1], int) and not isinstance(l[3][1], bool) and l[2][0] != 'c':
+        tot = (l[3][1] if l[1] == '+' else -l[3][1]) + (r[1] if op == '+' else -r[1])
+        if tot == 0:
+            return l[2]
+        return ('bin', '+', l[2], ('c', tot)) if tot > 0 else ('bin', '-', l[2], ('c', -tot))
     # a numeric constant operand of + and * is written on the right (1 + i is i + 1, 2 * x is x * 2)
     if op in ('+', '*') and l[0] == 'c' and isinstance(l[1], (int, float)) and not isinstance(l[1], bool) and r[0] != 'c':
         return fold_bin(op, r, l)
@@ -1122,16 +1129,41 @@ def item(t, i):
                 base = mk_index(src[2][0], t[2])
                 return base if start is None or start == ('c', 0) else fold_bin('+', base, start)
         if src[0] == 'call' and src[1] == ('g', 'builtins.zip') and i < len(src[2]):
+            # zip(range(len(X)), X): the first component is the index of the iteration over X
+            alt = mk_iter(src[2][i], t[2])
+            if alt[0] == 'idx' and alt[1] in src[2]:
+                return alt
             return ('iter', src[2][i], t[2])
     if t[0] == 'call' and t[1] == ('g', 'builtins.divmod') and len(t[2]) == 2 and not t[3] and i in (0, 1):
         return fold_bin('//' if i == 0 else '%', t[2][0], t[2][1])      # q, r = divmod(a, b)
+    if t[0] == 'call' and t[1][0] == 'g' and t[1][1] in ('numpy.where', 'numpy.nonzero') and isinstance(i, int):
+        return ('sub', t, ('c', i))     # (rows,) = where(c)  is  where(c)[0]
     return ('item', t, i)
 
 
+_TUPLE_RETURNING = ('calculus_division', 'path_matching', 'connect_coding_graph', 'remove_nasty_arc', 'repair_dna')
+
+
 def subscript(base, idx):
+    # r = f(...); r[0], r[1]  is  a, b = f(...)  for the functions that return a tuple
+    if base[0] == 'call' and idx[0] == 'c' and isinstance(idx[1], int) and not isinstance(idx[1], bool) and idx[1] >= 0 and \
+            base[1][0] == 'g' and (base[1][1].split('.')[-1] in _TUPLE_RETURNING or base[1][1] == 'builtins.divmod'):
+        return item(base, idx[1])
+    # X[:len(X) - c] is X[:-c]
+    if idx[0] == 'slice' and len(idx) == 4 and idx[2][0] == 'bin' and idx[2][1] == '-' and idx[2][3][0] == 'c' and \
+            isinstance(idx[2][3][1], int) and idx[2][3][1] >= 1 and idx[2][2] == ('call', ('g', 'builtins.len'), (base,), ()):
+        idx = ('slice', idx[1], ('c', -idx[2][3][1]), idx[3])
     # pair[1] for pair in enumerate(X) / zip(X, Y) is the unpacked component
     if base[0] == 'iter' and idx[0] == 'c' and isinstance(idx[1], int) and not isinstance(idx[1], bool) and idx[1] >= 0:
         return item(base, idx[1])          # the same term tuple unpacking of the element gives
+    # the same for the first axis of a multi-axis index: X[0:, j], X[:len(X), j]
+    if idx[0] == 'tuple' and len(idx) >= 2 and idx[1][0] == 'slice' and len(idx[1]) == 4 and idx[1][3] in (('c', None), ('c', 1)):
+        lo, hi = idx[1][1], idx[1][2]
+        if hi == ('call', ('g', 'builtins.len'), (base,), ()):
+            hi = ('c', None)
+        if lo == ('c', 0):
+            lo = ('c', None)
+        idx = ('tuple', ('slice', lo, hi, ('c', None))) + tuple(idx[2:])
     # X[a:len(X)] is X[a:], X[0:b] is X[:b] (unit step)
     if idx[0] == 'slice' and len(idx) == 4 and idx[3] in (('c', None), ('c', 1)):
         lo, hi = idx[1], idx[2]
@@ -1140,10 +1172,43 @@ def subscript(base, idx):
         if lo == ('c', 0):
             lo = ('c', None)
         idx = ('slice', lo, hi, ('c', None))
+    # X[len(X) - 1::-1] and X[-1::-1] are X[::-1]
+    if idx[0] == 'slice' and len(idx) == 4 and idx[3] == ('c', -1) and idx[2] == ('c', None) and \
+            idx[1] in (('c', -1), ('bin', '-', ('call', ('g', 'builtins.len'), (base,), ()), ('c', 1))):
+        idx = ('slice', ('c', None), ('c', None), ('c', -1))
     # X[len(X) - c] is X[-c] (c >= 1): both address the c-th item from the end, both raise IndexError when there is none
     if idx[0] == 'bin' and idx[1] == '-' and idx[3][0] == 'c' and isinstance(idx[3][1], int) and idx[3][1] >= 1 and \
             idx[2] == ('call', ('g', 'builtins.len'), (base,), ()):
         idx = ('c', -idx[3][1])
+    # X[i - len(X)] with i the index of an iteration over X is X[i] (the same item addressed from the end)
+    if idx[0] == 'bin' and idx[1] == '-' and idx[3] == ('call', ('g', 'builtins.len'), (base,), ()) and idx[2][0] == 'idx' and \
+            idx[2][1] == base:
+        idx = idx[2]
+    # X[where(C)] / X[nonzero(C)] is the boolean selection X[C] (numpy defines x[mask] as x[mask.nonzero()])
+    if idx[0] == 'call' and idx[1] in (('g', 'numpy.where'), ('g', 'numpy.nonzero')) and len(idx[2]) == 1 and not idx[3] and \
+            idx[2][0][0] == 'cmp':
+        idx = idx[2][0]
+    # X[a:a + n][i] with constants 0 <= i < n is X[a + i] (a is a position counted from the start; both raise past the end)
+    if base[0] == 'sub' and base[2][0] == 'slice' and len(base[2]) == 4 and base[2][3] in (('c', None), ('c', 1)) and \
+            idx[0] == 'c' and isinstance(idx[1], int) and not isinstance(idx[1], bool) and idx[1] >= 0 and \
+            base[2][1] != ('c', None) and base[2][2] != ('c', None):
+        lo_, hi_ = base[2][1], base[2][2]
+        d_ = fold_bin('-', hi_, lo_) if lo_[0] == 'c' else None
+        if hi_[0] == 'bin' and hi_[1] == '+' and hi_[2] == lo_ and hi_[3][0] == 'c' and isinstance(hi_[3][1], int):
+            width = hi_[3][1]
+        elif d_ is not None and d_[0] == 'c' and isinstance(d_[1], int) and lo_[1] is not None and isinstance(lo_[1], int) and lo_[1] >= 0:
+            width = d_[1]
+        else:
+            width = None
+        if width is not None and idx[1] < width and not (lo_[0] == 'c' and (not isinstance(lo_[1], int) or lo_[1] < 0)) and \
+                not (lo_[0] == 'un'):
+            return subscript(base[1], lo_ if idx[1] == 0 else fold_bin('+', lo_, idx))
+    # (A, B)[test] with a comparison as the index is `B if test else A`
+    if base[0] in ('tuple', 'list') and len(base) == 3 and idx[0] == 'cmp':
+        return ('ifexp', idx, base[2], base[1])
+    # a[i, :] with scalar i is the row a[i]
+    if idx[0] == 'tuple' and len(idx) == 3 and idx[1][0] != 'slice' and idx[2] == ('slice', ('c', None), ('c', None), ('c', None)):
+        return subscript(base, idx[1])
     # a[i, j] with scalar (non-slice) i  ==  a[i][j]
     if idx[0] == 'tuple' and len(idx) == 3 and idx[1][0] != 'slice':
         return subscript(subscript(base, idx[1]), idx[2])
@@ -1163,6 +1228,10 @@ def subscript(base, idx):
 
 def simplify_call(t):
     _, fn, args, kws = t
+    # next(iter(X)) is X[0]
+    if fn == ('g', 'builtins.next') and len(args) == 1 and not kws and args[0][0] == 'call' and args[0][1] == ('g', 'builtins.iter') \
+            and len(args[0][2]) == 1:
+        return subscript(args[0][2][0], ('c', 0))
     # range(0, n) and range(0, n, 1) are range(n)
     if fn == ('g', 'builtins.range') and not kws and len(args) in (2, 3) and args[0] == ('c', 0) and (len(args) == 2 or args[2] == ('c', 1)):
         return simplify_call(('call', fn, (args[1],), kws))
